@@ -47,6 +47,7 @@ def make_instrumentation(log, tag):
 HOOKS = ["on_query_start", "on_query_end", "on_parsing_start", "on_parsing_end", "on_validation_start",
          "on_validation_end", "on_execution_start", "on_execution_end", "on_field_start", "on_field_end"]
 PARTIAL_TAG = 100
+GROUP_TAG = 900
 
 
 def make_partial(log, tag, hooks):
@@ -67,15 +68,44 @@ def partial_spec(rng, k):
     return out
 
 
-def make_instrumentations(log, k, partials=()):
+def make_instrumentations(log, k, partials=(), nest=None):
     from py_gql.execution import MultiInstrumentation
 
     recs = [make_instrumentation(log, i) for i in range(k)]
-    if k == 1 and not partials:
+    if k == 1 and not partials and nest is None:
         return recs[0]
     members = list(recs)
     for tag, hooks, pos in partials:
         members.insert(min(pos, len(members)), make_partial(log, tag, hooks))
+    if nest is not None and len(members) >= 2:
+        # stacks may contain stacks (plain ones and subclasses that have hooks of their own, which then
+        # fire around their members'): the flattened order of the recorders stays the same
+        i = nest % (len(members) - 1)
+        j = i + 2 + (nest // 7) % max(1, len(members) - i - 1)
+        group = members[i:j]
+        if nest % 2:
+            # a subclass with hooks of its own (tag GROUP_TAG): they fire around its members'
+            rec = make_instrumentation(log, GROUP_TAG)
+            ns = {}
+            for h in HOOKS:
+                def mk(h):
+                    own = getattr(type(rec), h)
+                    base = getattr(MultiInstrumentation, h)
+                    if h.endswith("_start"):
+                        def hook(self, *a):
+                            own(rec, *a)
+                            return base(self, *a)
+                    else:
+                        def hook(self, *a):
+                            out = base(self, *a)
+                            own(rec, *a)
+                            return out
+                    return hook
+                ns[h] = mk(h)
+            inner = type("Group", (MultiInstrumentation,), ns)(*group)
+        else:
+            inner = MultiInstrumentation(*group)
+        members[i:j] = [inner]
     return MultiInstrumentation(*members)
 
 
